@@ -22,6 +22,11 @@ func LengthPlan(g *h.G) func() int {
 			return g.Pick(252, 253, 254, 255, 256, 257, 258, 259, 260)
 		case 3:
 			return 200 + g.Rng.Intn(120)
+		case 4:
+			if g.Rng.Intn(4) == 0 { // around the decoder's incremental-read chunk (4096 bytes)
+				return g.Pick(4095, 4096, 4097, 8192, 8193, 12289)
+			}
+			return g.Rng.Intn(48)
 		default:
 			return g.Rng.Intn(48)
 		}
@@ -266,6 +271,93 @@ func EmitCases(g *h.G, s *tlmini.Schema, tys []*tlmini.Ty, n int, reqOp, key str
 			}
 		}
 	}
+	// long vectors: every vector-typed field of every declaration with exactly 255, 256, 257, 300, 1000 items (and
+	// 65536+ items of builtin element types in the thorough tier), in both directions; nested vectors and vectors of
+	// boxed values included. A conditional vector field is made present (all tested mode bits set).
+	lens := []int{255, 256, 257, 300, 1000}
+	saveMode := gen.Mode
+	gen.Mode = func(used uint32) uint32 { return used }
+	longVec := func(d *tlmini.Decl, emit func(items []*tlmini.Val, f *tlmini.Field, n int)) {
+		for i := range d.Fields {
+			f := &d.Fields[i]
+			if f.Ty.Kind != tlmini.KVector {
+				continue
+			}
+			ls := lens
+			if g.Thorough() && (f.Ty.Item.Kind <= tlmini.KBool) {
+				ls = append(append([]int{}, lens...), 65536, 65537, 70001)
+			}
+			for _, n := range ls {
+				gen.Force = map[*tlmini.Field]int{f: n}
+				gen.Budget = 20
+				items := gen.Fields(d, 1)
+				gen.Force = nil
+				g.Count("long_vectors")
+				g.Count(fmt.Sprintf("long_vector_%d", n))
+				emit(items, f, n)
+			}
+		}
+	}
+	for _, t := range tys {
+		var ds []*tlmini.Decl
+		if t.Kind == tlmini.KBoxed {
+			ds = s.CtorsOf(t.Name)
+		} else if d := s.Ctor(t.Name); d != nil {
+			ds = []*tlmini.Decl{d}
+		}
+		sub := subOf([]*tlmini.Ty{t}, nil)
+		for _, d := range ds {
+			d := d
+			longVec(d, func(items []*tlmini.Val, f *tlmini.Field, n int) {
+				v := &tlmini.Val{K: tlmini.VTuple, Items: items}
+				if t.Kind == tlmini.KBoxed {
+					v = &tlmini.Val{K: tlmini.VSum, Ctor: d.Ctor, Items: items}
+				}
+				ref, err := s.Encode(t, v)
+				if err != nil {
+					h.Fatalf("reference encoder: %v", err)
+				}
+				g.NonTrivial(fmt.Sprintf("%s%s/long/%s/%d", key, t.Name, f.Name, n))
+				g.Emit("tl.enc", sub, t.Name, v.String())
+				g.Emit("tl.dec", sub, t.Name, h.Hex(append(ref, 0xab, 0xcd)))
+				g.Emit("go.tl.roundtrip", sub, "type", t.Name, v.String(), "abcd")
+			})
+		}
+	}
+	for _, d := range s.Funcs {
+		d := d
+		sub := subOf(nil, []string{d.Ctor}, "liteServer.error")
+		longVec(d, func(items []*tlmini.Val, f *tlmini.Field, n int) {
+			ps := &tlmini.Val{K: tlmini.VTuple, Items: items}
+			ref, err := s.EncodeFields(d.Fields, items)
+			if err != nil {
+				h.Fatalf("reference encoder: %v", err)
+			}
+			g.NonTrivial(fmt.Sprintf("%s%s/long/%s/%d", key, d.Ctor, f.Name, n))
+			g.Emit("tl.fenc", sub, d.Ctor, ps.String())
+			g.Emit("tl.fdec", sub, d.Ctor, h.Hex(append(ref, 0xab)))
+			g.Emit("go.tl.roundtrip", sub, "func", d.Ctor, ps.String(), "ab")
+			g.Emit(reqOp, sub, d.Ctor, ps.String())
+			g.Emit("tl.reqdec", fullHex, h.Hex(append(tlmini.Le32(d.ID), ref...)))
+		})
+		// answers whose result carries a long vector
+		resTy := &tlmini.Ty{Kind: tlmini.KBoxed, Name: d.Result}
+		for _, c := range s.CtorsOf(d.Result) {
+			c := c
+			longVec(c, func(items []*tlmini.Val, f *tlmini.Field, n int) {
+				if n > 1000 {
+					return
+				}
+				rb, err := s.Encode(resTy, &tlmini.Val{K: tlmini.VSum, Ctor: c.Ctor, Items: items})
+				if err != nil || c.ID == errDecl.ID {
+					return
+				}
+				g.Count("answer_long_vector")
+				g.Emit("tl.ans", sub, d.Ctor, h.Hex(rb))
+			})
+		}
+	}
+	gen.Mode = saveMode
 	// request decoder: ids that are no function, short inputs
 	for i := 0; i < 8+n/2; i++ {
 		b := g.Bytes(g.Rng.Intn(12))
